@@ -247,6 +247,9 @@ def run(chk):
     from .c06 import raw_vector_rule
     chk.rule("R4", "expand.rs reads member/type instruction vectors only through the per-conversion accessors", floor=1)
     chk.guard("R4", lambda: raw_vector_rule(chk, "R4", member_only=True))
+    from .c12 import import_parse_contracts
+    chk.guard("R5", lambda: import_parse_contracts(chk, "R5"))
+
 
 
 def import_lookup_contracts(chk, rule, accessors, with_chain=True, desc=None):
